@@ -8,6 +8,9 @@ Generators only produce inputs; expected answers always come from the extracted 
 from . import cbor
 
 INT_EDGES = [0, 1, 23, 24, 255, 256, 65535, 65536, 2**32 - 1, 2**32, 2**63, 2**64 - 1]
+# values that are somebody's default (message and fragment sizes, counts, protocol versions): code that special-cases 'the default' reacts
+# to exactly one of them
+INT_DEFAULTS = [2, 3, 4, 6, 8, 10, 16, 32, 63, 64, 128, 1023, 1024, 1200, 2048, 3008, 3072, 4096, 7609]
 INT_MAX = {"u8": 255, "u16": 65535, "u32": 2**32 - 1, "u64": 2**64 - 1, "usize": 2**64 - 1}
 
 
@@ -95,6 +98,10 @@ def gen_bytes(rng, n):
 
 
 def pick_int(rng, maxv, focus=False):
+    if rng.chance(1, 4):
+        ds = [e for e in INT_DEFAULTS if e <= maxv]
+        if ds:
+            return rng.choice(ds)
     edges = [e for e in INT_EDGES if e <= maxv] + [maxv, max(0, maxv - 1)]
     if focus or rng.chance(1, 2):
         return rng.choice(edges)
